@@ -3,21 +3,22 @@ namespace Stam.TP
 
 theorem rem_cases {tb te ib ie : Nat} {rem : Option (Nat × Nat)}
     (hr : (if ib > tb then some (tb, ib) else if ie < te then some (ie, te) else none) = rem)
-    (hu : ∀ r1 r2, rem = some (r1, r2) → ¬ r1 < ib) (hge : tb ≤ ib) (hle : ie ≤ te) :
-    ib = tb ∧ ((rem = none ∧ ie = te) ∨ (rem = some (ie, te) ∧ ie < te)) := by
+    (hu : ∀ r1 r2, rem = some (r1, r2) → ¬ r1 ≤ ib) (hge : tb ≤ ib) (hle : ie ≤ te) :
+    ib = tb ∧ ((rem = none ∧ ie = te) ∨ (rem = some (ie, te) ∧ ie < te ∧ tb < ie)) := by
   by_cases c3 : ib > tb
   · simp only [c3, ↓reduceIte] at hr
     exact absurd c3 (by have := hu tb ib hr.symm; omega)
   · simp only [c3, ↓reduceIte] at hr
     by_cases c4 : ie < te
     · simp only [c4, ↓reduceIte] at hr
+      have := hu ie te hr.symm
       subst hr; simp; omega
     · simp only [c4, ↓reduceIte] at hr
       subst hr; simp; omega
 
 theorem inter_usable {tb te fb fe ib ie : Nat} {rem : Option (Nat × Nat)}
-    (h : inter tb te fb fe = some (ib, ie, rem)) (hne : tb < te) (hf : fb < fe)
-    (hu : ∀ r1 r2, rem = some (r1, r2) → ¬ r1 < ib) :
+    (h : inter tb te fb fe = some (ib, ie, rem)) (hne : tb < te)
+    (hu : ∀ r1 r2, rem = some (r1, r2) → ¬ r1 ≤ ib) :
     ib = tb ∧ fb ≤ tb ∧ ie ≤ fe ∧ ie ≤ te ∧ tb < ie ∧
       ((rem = none ∧ ie = te) ∨ (rem = some (ie, te) ∧ ie < te)) := by
   unfold inter at h
@@ -25,12 +26,14 @@ theorem inter_usable {tb te fb fe ib ie : Nat} {rem : Option (Nat × Nat)}
   · simp only [c1, and_self, ↓reduceIte, Option.some.injEq, Prod.mk.injEq] at h
     obtain ⟨h1, h2, hr⟩ := h; subst h1; subst h2
     obtain ⟨h0, hrem⟩ := rem_cases hr hu (by omega) (by omega)
-    exact ⟨by omega, by omega, by omega, by omega, by omega, hrem⟩
+    refine ⟨by omega, by omega, by omega, by omega, ?_, hrem.imp id (fun h => ⟨h.1, h.2.1⟩)⟩
+    rcases hrem with ⟨_, h⟩ | ⟨_, _, h⟩ <;> omega
   · by_cases c2 : tb ≤ fb ∧ te ≥ fe
     · simp only [c1, c2, and_self, ↓reduceIte, Option.some.injEq, Prod.mk.injEq] at h
       obtain ⟨h1, h2, hr⟩ := h; subst h1; subst h2
       obtain ⟨h0, hrem⟩ := rem_cases hr hu (by omega) (by omega)
-      exact ⟨by omega, by omega, by omega, by omega, by omega, hrem⟩
+      refine ⟨by omega, by omega, by omega, by omega, ?_, hrem.imp id (fun h => ⟨h.1, h.2.1⟩)⟩
+      rcases hrem with ⟨_, h⟩ | ⟨_, _, h⟩ <;> omega
     · simp only [c1, c2, ↓reduceIte] at h
       by_cases b1 : fb ≥ tb ∧ fb < te
       · by_cases e1 : fe > tb ∧ fe ≤ te
@@ -39,14 +42,16 @@ theorem inter_usable {tb te fb fe ib ie : Nat} {rem : Option (Nat × Nat)}
           · simp only [b1, e1, e2, and_self, ↓reduceIte, Option.some.injEq, Prod.mk.injEq] at h
             obtain ⟨h1, h2, hr⟩ := h; subst h1; subst h2
             obtain ⟨h0, hrem⟩ := rem_cases hr hu (by omega) (by omega)
-            exact ⟨by omega, by omega, by omega, by omega, by omega, hrem⟩
+            refine ⟨by omega, by omega, by omega, by omega, ?_, hrem.imp id (fun h => ⟨h.1, h.2.1⟩)⟩
+            rcases hrem with ⟨_, h⟩ | ⟨_, _, h⟩ <;> omega
           · exfalso; omega
       · by_cases b2 : tb ≥ fb ∧ tb < fe
         · by_cases e1 : fe > tb ∧ fe ≤ te
           · simp only [b1, b2, e1, and_self, ↓reduceIte, Option.some.injEq, Prod.mk.injEq] at h
             obtain ⟨h1, h2, hr⟩ := h; subst h1; subst h2
             obtain ⟨h0, hrem⟩ := rem_cases hr hu (by omega) (by omega)
-            exact ⟨by omega, by omega, by omega, by omega, by omega, hrem⟩
+            refine ⟨by omega, by omega, by omega, by omega, ?_, hrem.imp id (fun h => ⟨h.1, h.2.1⟩)⟩
+            rcases hrem with ⟨_, h⟩ | ⟨_, _, h⟩ <;> omega
           · exfalso; omega
         · simp only [b1, b2, ↓reduceIte] at h
           simp at h
@@ -58,25 +63,23 @@ def PieceIn (side : Side) (res : Nat) (p : Piece) : Prop :=
 
 theorem findFrag_spec (res tb te : Nat) (hne : tb < te) :
     ∀ (side : Side) (j0 : Nat) (p : Piece) (rem : Option (Nat × Nat)),
-      (∀ f ∈ side, f.b < f.e) → findFrag res tb te side j0 = some (p, rem) →
+      findFrag res tb te side j0 = some (p, rem) →
       (∃ f, side[p.j - j0]? = some f ∧ j0 ≤ p.j ∧ f.res = res ∧ f.b ≤ p.ab ∧ p.ae ≤ f.e ∧
         p.rb = p.ab - f.b ∧ p.re = p.ae - f.b) ∧
       p.ab = tb ∧ p.ae ≤ te ∧ tb < p.ae ∧
       ((rem = none ∧ p.ae = te) ∨ (rem = some (p.ae, te) ∧ p.ae < te)) := by
   intro side
   induction side with
-  | nil => intro j0 p rem _ h; simp [findFrag] at h
+  | nil => intro j0 p rem h; simp [findFrag] at h
   | cons f rest ih =>
-    intro j0 p rem hfr h
-    have hrest : ∀ g ∈ rest, g.b < g.e := fun g hg => hfr g (List.mem_cons_of_mem _ hg)
-    have hf : f.b < f.e := hfr f (List.mem_cons_self ..)
+    intro j0 p rem h
     have step : findFrag res tb te rest (j0 + 1) = some (p, rem) →
         (∃ f', (f :: rest)[p.j - j0]? = some f' ∧ j0 ≤ p.j ∧ f'.res = res ∧ f'.b ≤ p.ab ∧ p.ae ≤ f'.e ∧
           p.rb = p.ab - f'.b ∧ p.re = p.ae - f'.b) ∧
         p.ab = tb ∧ p.ae ≤ te ∧ tb < p.ae ∧
         ((rem = none ∧ p.ae = te) ∨ (rem = some (p.ae, te) ∧ p.ae < te)) := by
       intro h'
-      obtain ⟨⟨f', hf', hj, r⟩, rest'⟩ := ih (j0 + 1) p rem hrest h'
+      obtain ⟨⟨f', hf', hj, r⟩, rest'⟩ := ih (j0 + 1) p rem h'
       refine ⟨⟨f', ?_, by omega, r⟩, rest'⟩
       have : p.j - j0 = (p.j - (j0 + 1)) + 1 := by omega
       rw [this, List.getElem?_cons_succ]; exact hf'
@@ -95,8 +98,8 @@ theorem findFrag_spec (res tb te : Nat) (hne : tb < te) :
         | none =>
           simp only [Option.some.injEq, Prod.mk.injEq] at h
           obtain ⟨hp, hr⟩ := h
-          have hu : ∀ r1 r2, (none : Option (Nat × Nat)) = some (r1, r2) → ¬ r1 < ib := by intro _ _ h; cases h
-          obtain ⟨h1, h2, h3, h4, h5, h6⟩ := inter_usable hi hne hf hu
+          have hu : ∀ r1 r2, (none : Option (Nat × Nat)) = some (r1, r2) → ¬ r1 ≤ ib := by intro _ _ h; cases h
+          obtain ⟨h1, h2, h3, h4, h5, h6⟩ := inter_usable hi hne hu
           subst hp; subst hr
           refine ⟨⟨f, by simp, by simp, hres', by simp; omega, by simpa using h3, by simp, by simp⟩, by simpa using h1, by simpa using h4, by simpa using h5, ?_⟩
           rcases h6 with ⟨_, h6⟩ | ⟨h6, _⟩
@@ -104,14 +107,17 @@ theorem findFrag_spec (res tb te : Nat) (hne : tb < te) :
           · cases h6
         | some r =>
           obtain ⟨r1, r2⟩ := r
-          by_cases hpre : r1 < ib
-          · simp only [hpre, ↓reduceIte] at h
+          by_cases hpre : r1 ≤ ib
+          · simp only [] at h
+            rw [if_pos hpre] at h
             exact step h
-          · simp only [hpre, ↓reduceIte, Option.some.injEq, Prod.mk.injEq] at h
+          · simp only [] at h
+            rw [if_neg hpre] at h
+            simp only [Option.some.injEq, Prod.mk.injEq] at h
             obtain ⟨hp, hr⟩ := h
-            have hu : ∀ a b, (some (r1, r2) : Option (Nat × Nat)) = some (a, b) → ¬ a < ib := by
+            have hu : ∀ a b, (some (r1, r2) : Option (Nat × Nat)) = some (a, b) → ¬ a ≤ ib := by
               intro a b h; simp only [Option.some.injEq, Prod.mk.injEq] at h; omega
-            obtain ⟨h1, h2, h3, h4, h5, h6⟩ := inter_usable hi hne hf hu
+            obtain ⟨h1, h2, h3, h4, h5, h6⟩ := inter_usable hi hne hu
             subst hp; subst hr
             refine ⟨⟨f, by simp, by simp, hres', by simp; omega, by simpa using h3, by simp, by simp⟩, by simpa using h1, by simpa using h4, by simpa using h5, ?_⟩
             rcases h6 with ⟨h6, _⟩ | ⟨h6, h7⟩
@@ -121,7 +127,7 @@ theorem findFrag_spec (res tb te : Nat) (hne : tb < te) :
 /-- the characters (positions) a list of pieces selects, in order -/
 def ranges (ps : List Piece) : List Nat := ps.flatMap (fun p => List.range' p.ab (p.ae - p.ab))
 
-theorem consume_spec (side : Side) (res : Nat) (hfr : ∀ f ∈ side, f.b < f.e) :
+theorem consume_spec (side : Side) (res : Nat) :
     ∀ (fuel tb te : Nat) (ps : List Piece), tb < te → consume side res fuel tb te = some ps →
       ranges ps = List.range' tb (te - tb) ∧ (∀ p ∈ ps, PieceIn side res p) ∧ ps ≠ [] := by
   intro fuel
@@ -135,7 +141,7 @@ theorem consume_spec (side : Side) (res : Nat) (hfr : ∀ f ∈ side, f.b < f.e)
     | some v =>
       obtain ⟨p, rem⟩ := v
       rw [hf] at h
-      obtain ⟨⟨f, hf1, _, hf2, hf3, hf4, hf5, hf6⟩, hab, hle, hlt, hrem⟩ := findFrag_spec res tb te hne side 0 p rem hfr hf
+      obtain ⟨⟨f, hf1, _, hf2, hf3, hf4, hf5, hf6⟩, hab, hle, hlt, hrem⟩ := findFrag_spec res tb te hne side 0 p rem hf
       have hpin : PieceIn side res p := ⟨f, by simpa using hf1, hf2, hf3, hf4, by omega, hf5, hf6⟩
       rcases hrem with ⟨hr, hae⟩ | ⟨hr, hae⟩
       · subst hr
@@ -164,7 +170,7 @@ theorem consume_spec (side : Side) (res : Nat) (hfr : ∀ f ∈ side, f.b < f.e)
 
 def srcRanges (source : List (Nat × Nat)) : List Nat := source.flatMap (fun s => List.range' s.1 (s.2 - s.1))
 
-theorem consumeAll_spec (side : Side) (res : Nat) (hfr : ∀ f ∈ side, f.b < f.e) :
+theorem consumeAll_spec (side : Side) (res : Nat) :
     ∀ (source : List (Nat × Nat)) (ps : List Piece), (∀ s ∈ source, s.1 < s.2) →
       consumeAll side res source = some ps →
       ranges ps = srcRanges source ∧ (∀ p ∈ ps, PieceIn side res p) := by
@@ -185,7 +191,7 @@ theorem consumeAll_spec (side : Side) (res : Nat) (hfr : ∀ f ∈ side, f.b < f
         simp only [Option.some.injEq] at h
         subst h
         have hlt : tb < te := hne (tb, te) (List.mem_cons_self ..)
-        obtain ⟨a1, a2, _⟩ := consume_spec side res hfr _ tb te p1 hlt h1
+        obtain ⟨a1, a2, _⟩ := consume_spec side res _ tb te p1 hlt h1
         obtain ⟨b1, b2⟩ := ih p2 (fun s hs => hne s (List.mem_cons_of_mem _ hs)) h2
         refine ⟨?_, ?_⟩
         · have : ranges (p1 ++ p2) = ranges p1 ++ ranges p2 := by simp [ranges]
